@@ -837,6 +837,12 @@ def rule_handler_model(ctx, g: Grammar) -> None:
         ("_version_check", {"ver_type": 1, "fw_version": 0x16}, cmd("CmdVersionCheck", ver_type=("VersionCheckType", 1), version=0x16)),
         ("_reset", {}, cmd("CmdReset")),
         ("_load", {"values": "-1", "address": 8}, RAISE),
+        # fill: the operands reach CmdFill as they were evaluated (a pattern that does not fit 1 / 2 / 4 bytes is CmdFill's to refuse - C04.fill-word)
+        ("_fill_memory", {"address": 0x100, "pattern": 0x55, "length": 0x40}, cmd("CmdFill", address=0x100, pattern=0x55, length=0x40, zero_filling=Z)),
+        ("_fill_memory", {"address": "0x100", "pattern": "0x11223344"}, cmd("CmdFill", address=0x100, pattern=0x11223344, length=None, zero_filling=Z)),
+        ("_fill_memory", {"address": 0, "pattern": 0, "length": 0}, cmd("CmdFill", address=0, pattern=0, length=0, zero_filling=Z)),
+        ("_fill_memory", {"address": 0x100, "pattern": 0x1000000A5, "length": 0x40}, cmd("CmdFill", address=0x100, pattern=0x1000000A5, length=0x40, zero_filling=Z)),
+        ("_fill_memory", {"address": 0x100, "pattern": -1, "length": 0x40}, cmd("CmdFill", address=0x100, pattern=-1, length=0x40, zero_filling=Z)),
     ]
     # encrypt / keywrap: the key blob with the statement's id (not the first one) supplies range, key and counter
     K0, K1 = "00" * 16, "0102030405060708090a0b0c0d0e0f10"
@@ -880,7 +886,7 @@ def rule_handler_model(ctx, g: Grammar) -> None:
         ctx.chk.decide(not probs.get(hname), "C19.handler-model", f"{HELPER}::SB21Helper.{hname}", f"produces the prescribed command on every model statement ({sum(1 for c_ in cases if c_[0] == hname)} models)",
                        "; ".join(probs.get(hname, [])[:2])[:600], "", A.loc(HELPER, ctx.own(HELPER, "SB21Helper", hname).node))
     ctx.chk.exhaustive_rules.add("C19.handler-model")
-    ctx.chk.floor("C19.handler-model", 10)
+    ctx.chk.floor("C19.handler-model", 11)
     # the length of a programmed blob is the length of the blob ({{ 00 00 00 00 00 00 00 01 }} is 8 bytes), not the magnitude of the number
     fnp = ctx.own(HELPER, "SB21Helper", "_prog")
     wrong = []
@@ -1266,6 +1272,38 @@ def rule_comment_token(ctx) -> None:
                "/\\*(.|\\s)*?\\*/", A.loc(LEXER, m.tree))
 
 
+def rule_blocks_accumulate(ctx, g: Grammar) -> None:
+    """C19.blocks-accumulate: the grammar allows any number of options / keyblob blocks in front of the sections
+    (pre_section_block -> pre_section_block X_block is left recursive).  The reducing action is interpreted twice in a row on model
+    tokens carrying two different blocks: what the second reduction returns still contains what the first block defined (a block must
+    not replace its predecessor's entries)."""
+    Obj = ordereval.Obj
+    n = 0
+    for block, first, second, has_both in (
+            ("options_block", {"options": {"flags": 8, "buildNumber": 2}}, {"options": {"productVersion": "1.2.3"}},
+             lambda d: isinstance(d.get("options"), dict) and d["options"] == {"flags": 8, "buildNumber": 2, "productVersion": "1.2.3"}),
+            ("keyblob_block", {"keyblob_id": 0, "keyblob_content": ("a",)}, {"keyblob_id": 1, "keyblob_content": ("b",)},
+             lambda d: [k.get("keyblob_id") for k in (d.get("keyblobs") or ()) if isinstance(k, dict)] == [0, 1])):
+        rules = [r for r in g.rules if r[0] == "pre_section_block" and r[1] == ["pre_section_block", block]]
+        if len(rules) != 1:
+            raise AnalysisError(f"C19.blocks-accumulate: production pre_section_block -> pre_section_block {block} not found exactly once")
+        fn = rules[0][2]
+        state: Dict[str, Any] = {}
+        try:
+            for blk in (first, second):
+                tok = Obj(pre_section_block=state, _items={0: state, 1: blk}, **{block: blk})
+                out = ordereval.Evaluator({"self": Obj(_parser=True), fn.params()[1]: tok}, ctx.fold_sym(fn), opaque_return=False).run(A.body_of(fn.node))
+                if out.kind != "return" or not isinstance(out.value, dict):
+                    raise ordereval.Unsupported(fn.node, f"the action {out.kind}s {out.value!r}")
+                state = out.value
+        except ordereval.Unsupported as ex:
+            raise AnalysisError(f"C19.blocks-accumulate: {fn.qual} left the fragment: {ex}")
+        n += 1
+        ctx.chk.decide(has_both(state), "C19.blocks-accumulate", f"{fn.qual} ({block})", "two blocks in a row: the entries of both are in the result",
+                       f"after `{block}` twice the command file holds {state!r}"[:300], "entries of the first block survive the second", A.loc(PARSER, fn.node))
+    ctx.chk.floor("C19.blocks-accumulate", 2)
+
+
 def run(ctx) -> None:
     ctx.chk.explain("C19: operator dispatch of the BD expression evaluator checked against the language's operator table through the lexer's token regexes (automata), "
                     "definition-order shadowing of lexer patterns, precedence tuple vs C order, abstract interpretation of the grammar's semantic actions to the set of "
@@ -1278,6 +1316,7 @@ def run(ctx) -> None:
     ctx.rule(rule_handlers_keyflow, g)
     ctx.rule(rule_routing, g)
     ctx.rule(rule_handler_model, g)
+    ctx.rule(rule_blocks_accumulate, g)
     ctx.rule(rule_refuse, g)
     ctx.rule(rule_operands, g)
     ctx.rule(rule_sections, g)
